@@ -81,7 +81,7 @@ class Deep:
             return
         # a failure in one step (a delivery, the service, a plugin) must not stop the remaining steps
         steps = [("trigger handler", self.trigger_handler.shutdown), ("task handler", self.task_handler.flush),
-                 ("poll", self.poll.shutdown)]
+                 ("poll", self.poll.shutdown), ("grpc", self.grpc.shutdown)]
         for name, step in steps:
             try:
                 step()
